@@ -823,7 +823,7 @@ func VerifyFunction(prog *Program, cs *Contracts, fn *ssa.Function, sweep bool, 
 	if e.fc != nil && e.outOfReach == "" {
 		// every at-clause must have matched at least one instruction on some path
 		for i, c := range e.fc.At {
-			if e.atHits[c] == 0 {
+			if e.atHits[c] == 0 && !c.Optional {
 				e.insts = append(e.insts, &Instance{Name: fmt.Sprintf("%s/anchor/%s/%s", e.fname, c.Anchor, clauseID(c, i)), Kind: "anchor", Func: e.fname, Props: c.Props,
 					Clause: "anchor " + c.Anchor.String() + " of clause '" + c.Text + "' matches an instruction", Goal: "false"})
 			}
